@@ -104,9 +104,9 @@ H("C13", "m2", _HD, "quick", "canary", ["c13a_header_canary"], ["header::M2Heade
 # =============================================================================== C13.b records
 _RC = "verif_kani_records"
 H("C13", "m2", _RC, "quick", "C13.b sequence record: size == the 32/52 the writer adds, write(parse(b)) == b",
-  ["c13b_sequence_v256", "c13b_sequence_v260", "c13b_sequence_v264", "c13b_sequence_v272"],
+  ["c13b_sequence_v256", "c13b_sequence_v257", "c13b_sequence_v259", "c13b_sequence_v260", "c13b_sequence_v264", "c13b_sequence_v272"],
   ["chunks::animation::M2Animation::{parse,write}", "chunks::animation::M2Range::{parse,write}", "model::M2Model::write (anim_size constant)"],
-  "record bytes fully symbolic (40/60-byte buffer)", "one record per version class {256, 260, 264, 272}",
+  "record bytes fully symbolic (40/60-byte buffer)", "one record per version number 256, 257, 259 (right behind the switch of M2Model::write), 260, 264, 272",
   assumes=["v256: start_timestamp <= u32::MAX - 1000 (known finding KF-C13-sequence-start-overflow)", _CONSTS], stubs=[FMT])
 H("C13", "m2", _RC, "quick", "C13.b witness: Vanilla sequence with start_timestamp = u32::MAX", ["c13b_sequence_start_overflow_witness"],
   ["chunks::animation::M2Animation::write"], "concrete", "one input", stubs=[FMT], expect="witness:KF-C13-sequence-start-overflow")
